@@ -58,7 +58,7 @@ def _get_positions_from_all_adjacent_unit_cells(structure, distance):
     near_types = []
     near_indices = []
 
-    if not structure.cell_is_orthorhombic():
+    if not structure.cell_is_orthorhombic() or np.any(np.diag(cell) <= 0):
         # search within triclinic space + buffer by looking at three planes that go through origin
 
         # normal vectors for planes: xy, xz, yz
